@@ -93,9 +93,14 @@ func topAllocSite(f func()) string {
 	snapshot := func() map[string]int64 {
 		runtime.GC()
 		runtime.GC()
-		n, _ := runtime.MemProfile(nil, true)
-		recs := make([]runtime.MemProfileRecord, n+200)
-		n, ok := runtime.MemProfile(recs, true)
+		var recs []runtime.MemProfileRecord
+		n, ok := runtime.MemProfile(nil, true)
+		for tries := 0; ; tries++ {
+			recs = make([]runtime.MemProfileRecord, n+1000)
+			if n, ok = runtime.MemProfile(recs, true); ok || tries > 5 {
+				break
+			}
+		}
 		if !ok {
 			return nil
 		}
@@ -120,6 +125,9 @@ func topAllocSite(f func()) string {
 	before := snapshot()
 	f()
 	after := snapshot()
+	if before == nil || after == nil {
+		return "unknown"
+	}
 	best, bestN := "unknown", int64(0)
 	for k, v := range after {
 		if d := v - before[k]; d > bestN {
@@ -230,7 +238,7 @@ func checkDecode(c *decodeCase, input []byte) result {
 	}
 	if bound := allocBound(len(input)); res.alloc > bound {
 		min := res.alloc
-		for i := 0; i < 2 && min > bound; i++ {
+		for i := 0; i < 2 && min > bound && min < 16*bound; i++ { // an excess of 16x the bound is beyond any background noise
 			r2 := decodeOnce(c, input)
 			if r2.fail == nil && r2.alloc < min {
 				min = r2.alloc
@@ -469,6 +477,9 @@ func mutate(rt *rapid.T, f *codec.Frame, depth int) (out []byte, class, desc str
 		}
 		ct := counts[rapid.IntRange(0, len(counts)-1).Draw(rt, "count")]
 		vals := []uint32{0, 1, uint32(ct.Val + 1), 255, 65535, 1 << 20, 1 << 24, 1<<31 - 1}
+		if ct.Kind == "bytes" { // a 2 GiB allocation per measurement proves nothing more than 64 MiB does
+			vals = []uint32{0, 1, uint32(ct.Val + 1), 255, 65535, 1 << 20, 1 << 26}
+		}
 		v := vals[rapid.IntRange(0, len(vals)-1).Draw(rt, "value")]
 		b = tarsSetCount(b, ct, v)
 		class += ":" + ct.Kind
